@@ -13,8 +13,9 @@ EXTENDS AseObs, Json, IOUtils
 
 Rec == ndJsonDeserialize(IOEnv.TRACE)
 
-VARIABLES l, ps, res, case
-tvars == <<l, ps, res, case>>
+VARIABLES l, ps, res, case, base
+tvars == <<l, ps, res, case, base>>
+\* base: result and observation of the most recent case that is not a variant (C07)
 
 RejectReg == 42
 Verdict(ok, info) == IF ok THEN TRUE ELSE PrintT(<<"REJECT", info>>) /\ TLCSet(RejectReg, TLCGet(RejectReg) + 1)
@@ -22,7 +23,8 @@ Verdict(ok, info) == IF ok THEN TRUE ELSE PrintT(<<"REJECT", info>>) /\ TLCSet(R
 Idle == [st |-> "idle"]
 \* outcome statistics (vacuity control): registers 43..46 = ok / err / either / unknown-structure
 Count(reg) == TLCSet(reg, TLCGet(reg) + 1)
-TraceInit == l = 1 /\ ps = Idle /\ res = "" /\ case = "" /\ TLCSet(RejectReg, 0)
+NoBase == [result |-> "", obs |-> <<>>, var |-> FALSE]
+TraceInit == l = 1 /\ ps = Idle /\ res = "" /\ case = "" /\ base = NoBase /\ TLCSet(RejectReg, 0)
              /\ TLCSet(43, 0) /\ TLCSet(44, 0) /\ TLCSet(45, 0) /\ TLCSet(46, 0)
 
 IsEvent(e) == l <= Len(Rec) /\ Rec[l].ev = e /\ l' = l + 1
@@ -48,13 +50,15 @@ TBegin ==
        /\ case' = e.case
        /\ ps' = IF e.mode = "full" /\ Len(e.hdr) = 1 THEN InitPS(e.hdr[1]) ELSE Idle
        /\ res' = ""
+       \* a case whose meta carries variant_of is another encoding of the preceding base case
+       /\ base' = IF "variant_of" \in DOMAIN e.meta THEN [base EXCEPT !.var = TRUE] ELSE NoBase
 
 TFrame ==
   /\ IsEvent("frame")
   /\ LET e == Rec[l] IN
        /\ ps' = BeginFrame(ps, e.f, e.dur, e.magic)
        /\ Verdict(Len(e.hook) = 1 /\ ~Stopped(ps') => e.hook[1].dur = e.dur, <<case, "frame_hook", e.f>>)
-  /\ UNCHANGED <<res, case>>
+  /\ UNCHANGED <<res, case, base>>
 
 TChunk ==
   /\ IsEvent("chunk")
@@ -63,7 +67,7 @@ TChunk ==
      IN /\ ps' = p
         /\ Verdict((Len(e.hook) = 1 /\ ~Stopped(p)) => HookAgrees(p, e.c, e.hook[1]),
                    <<case, "parser_state_after_chunk", e.f, e.i, e.c.k, "spec_ctx", p.ctx, "impl", e.hook>>)
-  /\ UNCHANGED <<res, case>>
+  /\ UNCHANGED <<res, case, base>>
 
 IsErr(r) == r \notin {"ok", "panic", "abort", "hang", "stack_overflow", "killed"}
 
@@ -71,6 +75,9 @@ TEnd ==
   /\ IsEvent("end")
   /\ LET e == Rec[l] IN
        /\ res' = e.result
+       /\ base' = IF base.var THEN base ELSE [base EXCEPT !.result = e.result]
+       \* C07: an equivalent encoding loads exactly when the base encoding does
+       /\ Verdict(base.var => (e.result = "ok") = (base.result = "ok"), <<case, "variant_result_differs", e.result, e.msg, "base", base.result>>)
        /\ IF Full
           THEN LET fin == Validate(ps)
                    out == Outcome(fin)
@@ -90,7 +97,7 @@ TEnd ==
 TTwice ==
   /\ IsEvent("twice")
   /\ Verdict(Rec[l].equal, <<case, "second_load_differs">>)
-  /\ UNCHANGED <<ps, res, case>>
+  /\ UNCHANGED <<ps, res, case, base>>
 
 TObs ==
   /\ IsEvent("obs")
@@ -98,11 +105,22 @@ TObs ==
        IF Full /\ Outcome(ps) = "ok"
        THEN LET bad == Failing(ps, o) IN Verdict(bad = {}, <<case, "observation", bad>>)
        ELSE LET bad == UsableFailing(o) IN Verdict(bad = {}, <<case, "usable", bad, o.panics>>)
+  \* C07: an equivalent encoding yields the same observation as the base encoding
+  /\ Verdict(base.var => Rec[l].obs = base.obs, <<case, "variant_observation_differs",
+               IF base.var /\ base.obs # <<>> THEN {f \in DOMAIN base.obs : f \in DOMAIN Rec[l].obs /\ Rec[l].obs[f] # base.obs[f]} ELSE {}>>)
+  /\ base' = IF base.var THEN base ELSE [base EXCEPT !.obs = Rec[l].obs]
   /\ UNCHANGED <<ps, res, case>>
 
-TDone == IsEvent("done") /\ ps' = Idle /\ UNCHANGED <<res, case>>
+\* C16: the same case observed by two build profiles (merged pairwise by the orchestrator)
+TPair ==
+  /\ IsEvent("pair")
+  /\ LET e == Rec[l] IN Verdict(e.a = e.b, <<e.case, "profile_pair_differs", e.what>>)
+  /\ Count(46)
+  /\ UNCHANGED <<ps, res, case, base>>
 
-TraceNext == TBegin \/ TFrame \/ TChunk \/ TEnd \/ TTwice \/ TObs \/ TDone
+TDone == IsEvent("done") /\ ps' = Idle /\ UNCHANGED <<res, case, base>>
+
+TraceNext == TBegin \/ TFrame \/ TChunk \/ TEnd \/ TTwice \/ TObs \/ TPair \/ TDone
 TraceSpec == TraceInit /\ [][TraceNext]_tvars
 
 TraceAccepted ==
